@@ -459,6 +459,12 @@ def mutdef(a=SHARED_DEFAULT, b=SHARED_DEFAULT, c=(1, 2), d=None):
   return _r.rec('mutdef', locals())
 
 
+def booldef_twin(p=True, q=0, r=1, s=''):
+  """Same parameter names as booldef and ==-equal defaults of OTHER types: the two
+  inspect.Signature objects compare (and hash) equal."""
+  return _r.rec('booldef_twin', locals())
+
+
 def booldef(p=1, q=0.0, r=True, s=''):
   """Defaults that are == to values of other types (1 == True == 1.0, 0.0 == False == 0)."""
   return _r.rec('booldef', locals())
